@@ -138,3 +138,66 @@ func HarnessC18HeaderLong() {
 	want := append(append(append([]byte{}, key...), ':', ' '), val...)
 	svAssert(hxEqBytes(hxNormWS(unf), hxNormWS(want)), "unfold-mismatch")
 }
+
+// Whole messages: every physical line of a rendered multipart message - the
+// generated Content-Type lines with their boundary parameter included - obeys
+// the line discipline, for caller-chosen boundaries of every length 1..70 and
+// for generated ones.
+func HarnessC18Message() {
+	L := svPick("boundary-length", svParam("maxblen", 70)+1) // 0: generated boundary
+	shape := svPick("shape", 4)                               // 0 alternative, 1 mixed, 2 related, 3 mixed > related > alternative (generated boundary only)
+	menc := hxEnc(svPick("menc", 2))                          // quoted-printable, base64
+	if shape == 3 && L != 0 {
+		return // a caller-chosen boundary is documented for a single multipart level only
+	}
+	m := NewMsg(WithEncoding(menc))
+	if L > 0 {
+		b := make([]byte, L)
+		for i := range b {
+			b[i] = "0123456789abcdefghijklmnopqrstuvwxyz"[i%36]
+		}
+		m.SetBoundary(string(b))
+	}
+	_ = m.From("a@b.c")
+	_ = m.To("d@e.f")
+	m.Subject("line discipline")
+	m.SetDateWithValue(hxFixedTime)
+	m.SetMessageIDWithValue("c18@b.c")
+	m.SetBodyString(TypeTextPlain, hxPartText[0])
+	if shape == 0 || shape == 3 {
+		m.AddAlternativeString(hxPartType[1], hxPartText[1])
+	}
+	if shape == 1 || shape == 3 {
+		_ = m.AttachReader("att.txt", &hxRd{data: []byte(hxFileData[1])})
+	}
+	if shape == 2 || shape == 3 {
+		_ = m.EmbedReader("emb.png", &hxRd{data: []byte(hxFileData[0])})
+	}
+	w := &hxRecW{}
+	if _, err := m.WriteTo(w); err != nil {
+		svAssert(false, "render-error")
+		return
+	}
+	svReach("rendered")
+	out := w.buf
+	start := 0
+	for i := 0; i < len(out); i++ {
+		c := out[i]
+		if c == '\n' {
+			svAssert(false, "bare-LF")
+			return
+		}
+		if c == '\r' {
+			if i+1 >= len(out) || out[i+1] != '\n' {
+				svAssert(false, "bare-CR")
+				return
+			}
+			hxCheckLineLen(out[start:i])
+			i++
+			start = i + 1
+		}
+	}
+	svAssert(start == len(out), "unterminated-line")
+	root := hxParseEntity(out, 0)
+	svAssert(root.bad == "", "malformed:"+root.bad)
+}
